@@ -9,13 +9,26 @@ the Go code does something else is transcribed under a named switch; MC_InProcEx
 seeded larger cases, the expected result, the result predicted for the code as transcribed, and the switches that cause
 a difference (= candidates).
 
+Message grain and ownership.  The chain is built with fixed grains (InProc!IP_AsBuilt: getter batches of 100 rows, the
+response optimizer flushes whenever it holds 3000 entries, an aggregation refuses more than 2000 series).  IP_RunG takes
+the grain as a parameter: TLC proves the theorem for every small grain (MC_InProc with Flushes / Caps: an early flush is
+invisible in the piecewise observation IP_ObsM, the series bound is part of the definition), and MC_InProcLong evaluates
+the same operators AT THE GRAIN AS BUILT on upstream scripts long enough to cross every threshold (one series, several
+series that go on / end / begin around the flush, the exact boundaries, limits inside, 2000 and 2001 series).
+InProcMem.tla is the memory under the messages: slices over arrays, Go's append, the three stage goroutines interleaved;
+the design (no stage keeps an array it has sent) satisfies OwnWrites / DeliveredStable / ExactlyOnce, every stage that
+re-uses a sent array breaks OwnWrites, the holding stage breaks DeliveredStable exactly on scripts that cross a flush
+with a series that goes on (Witness) - the class the long scripts are drawn from.
+
 Binding (harness/cmd/c09):
  (a) `c09 chain`: each case is concretised (hostile concrete lines per class, seeded) and replayed into the REAL chain -
      logql_parser.Parse + logql_transpiler_v2.Plan (GetBreakpoint, breakScript, internal_planner.Plan) with the
      ClickhouseGetterPlanner replaced by a scripted upstream that sends exactly the case's channel messages; the output
      channel, read like queryRangeService reads it, must equal the expected result; the same entries are replayed under
      further partitions and must give the same result.  Cases run in child processes: a panic in a chain goroutine is
-     not recoverable (and is itself a finding).
+     not recoverable (and is itself a finding).  The consumer reads every message on receipt AND keeps the slice; when
+     the chain has finished it reads all of them again: a message must not change after it was received
+     (InProcMem!DeliveredStable).  Long cases are observed piecewise (IP_ObsM).
  (b) `c09 cross`: equivalent formulations - one that stays in SQL, one that forces the breakpoint - run end to end
      through e2e.World (/loki/api/v1/query_range, real writer, real reader, chsql with the real DDL) over the same
      stored hostile lines; results must be equal, for every limit including absent.
@@ -71,6 +84,10 @@ NAMES = ['a', 'x', 'y', 'm', 'n_y', 'f', 'x_k', 'xy', 'z', 'q', 'e']
 EMPTY = '@empty'     # InProc!IP_Empty
 NUM = {'0': 0, '1': 1, '2': 2, '3': 3, '9': 9, '-0.5e1': -5}
 GRIDS = [[1, 4, 12, 13, 27], [3, 12, 14, 25, 28]]
+# InProc!IP_AsBuilt (the spec holds the values; the long scripts are sized by them)
+FLUSH, BATCH, CAP = 3000, 100, 2000
+GRAIN_PLS_Q, GRAIN_PLS = ['linefmt_drop'], ['linefmt', 'linefmt_drop']     # pipelines of the small-grain flush theorem
+CAP_PLS = ['m_rate', 'm_sum_by', 'v_sum_by']                                 # ... of the series-bound theorem
 
 
 def sfilt(l, op, v):
@@ -373,25 +390,132 @@ def gen_cases(tier, seed):
     return cases
 
 
+def ragged_cut(rnd, n):
+    """message sizes of every kind: empty, single entries, around the getter batch, several batches at once"""
+    cut, left = [], n
+    while left > 0:
+        r = rnd.random()
+        k = 0 if r < 0.08 else 1 if r < 0.16 else rnd.choice([BATCH - 1, BATCH, BATCH + 1]) if r < 0.5 else rnd.randint(2, 4 * BATCH)
+        k = min(k, left)
+        cut.append(k)
+        left -= k
+    return cut
+
+
+def gen_long_cases(tier, seed):
+    """Upstream scripts long enough to cross the grains of the chain as built (InProc!IP_AsBuilt), drawn from the witness
+    class of InProcMem.tla (a script longer than the flush threshold with a series that has entries on both sides of the
+    flush) and its border: one series / several series that go on, a series that ends before and one that begins after the
+    flush, the exact thresholds, a limit inside, a selecting stage with its own buffer, the series bound of the aggregators.
+    The main partition is the getter's (batches of BATCH rows, the rest with the end marker) unless stated; every case is
+    replayed under two more partitions (one message; ragged)."""
+    rnd = random.Random(seed * 15485863 + 11)
+    pidx = {p['id']: i for i, p in enumerate(PIPELINES)}
+    S1, S2, S3 = SERIES          # (S1 and S2 differ in x only: `| json` makes them one series on lines that carry x)
+    LATE = {'a': 'b', 'z': 'late'}
+    cases = []
+
+    def add(lclass, pid, es, lim=0, fwd=True, getter=True, cut=None):
+        n = len(es)
+        for i, e in enumerate(es):
+            if 'ts' not in e:
+                e['ts'] = i if fwd else n - 1 - i
+        alts = [[n], ragged_cut(rnd, n)]
+        if not getter:
+            alts[1] = [BATCH] * (n // BATCH) + [n % BATCH]
+        cases.append({'id': 'L%02d' % len(cases), 'pl': pidx[pid] + 1, 'es': es, 'cut': cut or [], 'getter': getter, 'alts': alts,
+                      'eof': True, 'lim': lim, 'fwd': fwd, 'lclass': lclass})
+
+    def lines(pid):
+        pool = PIPELINES[pidx[pid]]['spool']
+        return [t for t in pool if (t in PJ_OK or (t.startswith('F') and t != 'F4'))]
+
+    def runs(series, n, maxrun=40):
+        """n entries over the series in runs of random length"""
+        out = []
+        while len(out) < n:
+            out += [rnd.choice(series)] * rnd.randint(1, maxrun)
+        return out[:n]
+
+    # one series that goes on after the flush
+    pid = rnd.choice(['json', 'logfmt', 'json_drop'])
+    n = FLUSH + rnd.randint(1, 7 * BATCH)
+    add('one-series-continues', pid, [{'lb': S1, 'ln': rnd.choice(lines(pid))} for _ in range(n)], fwd=rnd.random() < 0.5)
+    # several series that all go on, a limit beyond the result
+    pid = rnd.choice(['json', 'json_lfmt_ren', 'json_drop2'])
+    n = FLUSH + rnd.randint(BATCH, 6 * BATCH)
+    add('several-series-continue', pid, [{'lb': sr, 'ln': rnd.choice(lines(pid))} for sr in runs([S1, S2, S3, LATE], n)], lim=n + 1000)
+    # a filter in front: one series ends before the flush, one begins after it, one goes on; > FLUSH entries pass
+    n = FLUSH + 6 * BATCH
+    es = []
+    for i in range(n):
+        sr = rnd.choice([S1, S3]) if i < 2 * FLUSH // 3 else S1 if i < n - 2 * BATCH else rnd.choice([S1, LATE])
+        es.append({'lb': sr, 'ln': 'J2' if rnd.random() < 0.08 else rnd.choice(['J1', 'J12'])})
+    add('series-end-begin-continue', 'json_eq', es, fwd=rnd.random() < 0.5)
+    # the exact threshold: FLUSH - 1 entries and the end marker / FLUSH entries, then the marker alone
+    for n in ([FLUSH - 1, FLUSH] if tier != 'quick' else [rnd.choice([FLUSH - 1, FLUSH])]):
+        pid = rnd.choice(['json', 'logfmt'])
+        add('exact-threshold', pid, [{'lb': sr, 'ln': rnd.choice(lines(pid))} for sr in runs([S1, S3], n, 900)])
+    # a limit inside a script that is longer
+    for lim in ([FLUSH, FLUSH + 1, FLUSH + BATCH] if tier != 'quick' else [rnd.choice([FLUSH, FLUSH + 1, FLUSH + BATCH])]):
+        n = FLUSH + 6 * BATCH
+        add('limit-inside', 'json', [{'lb': sr, 'ln': rnd.choice(lines('json'))} for sr in runs([S1, S3], n)], lim=lim)
+    # a selecting stage with a buffer of its own in front (line_format), ragged messages
+    pid = rnd.choice(['linefmt', 'json_linefmt'])
+    n = FLUSH + rnd.randint(1, 3 * BATCH)
+    add('selecting-stage-buffer', pid, [{'lb': sr, 'ln': rnd.choice(lines(pid))} for sr in runs([S1, S3], n)], getter=False,
+        cut=ragged_cut(rnd, n))
+    # the aggregators hold their series over every message: a long script, and the series bound on both sides
+    span = DUR * WINDOWS
+    pid = rnd.choice(['m_rate', 'm_sum_by', 'v_sum_by'])
+    n = FLUSH + 3 * BATCH
+    add('aggregation-over-many-messages', pid, [{'lb': sr, 'ln': rnd.choice(['J1', 'J2', 'J10', 'J11']), 'ts': i * span // n}
+                                                for i, sr in enumerate(runs([S1, S3], n))])
+    for n in (CAP, CAP + 1):
+        es = [{'lb': {'a': 'b', 'z': 's%04d' % i}, 'ln': 'J7', 'ts': i * span // n} for i in range(n)]
+        add('series-bound', 'm_rate', es)
+    if tier != 'quick':
+        n = 2 * FLUSH + rnd.randint(1, 2 * BATCH)
+        add('two-flushes', 'json', [{'lb': sr, 'ln': rnd.choice(lines('json'))} for sr in runs([S1, S3], n, 500)])
+    return cases
+
+
 EXPORT_CFG = 'SPECIFICATION Spec\nCHECK_DEADLOCK FALSE\n'
 
 THM_CFG = '''SPECIFICATION Spec
 CONSTANTS
   MaxN = %(maxn)d
   MaxMsgs = %(maxmsgs)d
-  PlFrom = %(plfrom)d
-  PlTo = %(plto)d
+  Pls = %(pls)s
   Lims = %(lims)s
-INVARIANTS Thm_BatchingIndependent Thm_LimitMeaning Thm_SeriesIdentity
+  Flushes = %(flushes)s
+  Caps = %(caps)s
+INVARIANTS Thm_BatchingIndependent Thm_LimitMeaning Thm_SeriesIdentity Thm_FlushInvisible Thm_GetterCut
+CHECK_DEADLOCK FALSE
+'''
+
+MEM_CFG = '''SPECIFICATION Spec
+CONSTANTS
+  Series = {"A", "B"}
+  MaxLen = %(maxlen)d
+  Batch = %(batch)d
+  Flush = %(flush)d
+  Reuse = %(reuse)s
+  MaxBufs = 32
+INVARIANTS %(invs)s
 CHECK_DEADLOCK FALSE
 '''
 
 
-def tlc_thm(gen_path, maxn, maxmsgs, lims, timeout, workers):
+def tlc_thm(gen_path, maxn, maxmsgs, lims, timeout, workers, pls=None, flushes='{0}', caps='{0}'):
+    """MC_InProc over the pipelines pls (ids; None = all) with the grains flushes / caps"""
     sd = vlib.scratch('c09thm')
     try:
         cfgp = os.path.join(sd, 'MC_InProc_run.cfg')
-        open(cfgp, 'w').write(THM_CFG % {'maxn': maxn, 'maxmsgs': maxmsgs, 'plfrom': 1, 'plto': len(PIPELINES), 'lims': lims})
+        pidx = {p['id']: i + 1 for i, p in enumerate(PIPELINES)}
+        plset = sorted(pidx[x] for x in pls) if pls else list(range(1, len(PIPELINES) + 1))
+        open(cfgp, 'w').write(THM_CFG % {'maxn': maxn, 'maxmsgs': maxmsgs, 'pls': '{' + ', '.join(map(str, plset)) + '}', 'lims': lims,
+                                         'flushes': flushes, 'caps': caps})
         res = vlib.tlc(SPECDIR, 'MC_InProc.tla', 'MC_InProc_run.cfg', workers=workers, timeout=timeout, copy_extra=[cfgp, gen_path])
         try:
             if res['violated']:
@@ -402,7 +526,7 @@ def tlc_thm(gen_path, maxn, maxmsgs, lims, timeout, workers):
             # vacuity (-coverage makes this model 20x slower): both actions were taken iff the search went three levels deep, and
             # every pipeline must have contributed complete cases
             m = re.search(r'The depth of the complete state graph search is (\d+)', res['out'])
-            if not m or int(m.group(1)) != 3 or res.get('distinct', 0) < 100 * len(PIPELINES):
+            if not m or int(m.group(1)) != 3 or res.get('distinct', 0) < 100 * len(plset):
                 raise vlib.Infra('vacuous theorem run: depth %s, %s states' % (m and m.group(1), res.get('distinct')))
             return {'states': res.get('distinct', 0), 'generated': res.get('generated', 0), 'wall_s': round(res['wall'], 1)}
         finally:
@@ -434,6 +558,85 @@ def tlc_export(gen_path, cases, timeout):
             vlib.tlc_cleanup(res)
     finally:
         shutil.rmtree(sd, ignore_errors=True)
+
+
+def tlc_mem(tier):
+    """InProcMem.tla: the design keeps OwnWrites / DeliveredStable / ExactlyOnce; a stage that re-uses a sent array breaks
+    OwnWrites; the holding stage breaks DeliveredStable, and only on scripts of the witness class.  A run that does not
+    come out like this means the model (or its sensitivity) is broken: infrastructure."""
+    dims = {'maxlen': 5 if tier == 'quick' else 6, 'batch': 2, 'flush': 3}
+    runs = [('{}', 'TypeOK OwnWrites DeliveredStable ExactlyOnce RereadEqualsReceived', None),
+            ('{"opt"}', 'DeliveredStable', 'DeliveredStable'),
+            ('{"opt"}', 'TypeOK Witness ExactlyOnce', None),
+            ('{"get"}', 'OwnWrites', 'OwnWrites'),
+            ('{"sel"}', 'OwnWrites', 'OwnWrites')]
+    out = {'states': 0, 'runs': []}
+    sd = vlib.scratch('c09mem')
+    try:
+        for k, (reuse, invs, expect) in enumerate(runs):
+            cfgp = os.path.join(sd, 'MC_InProcMem_%d.cfg' % k)
+            open(cfgp, 'w').write(MEM_CFG % dict(dims, reuse=reuse, invs=invs))
+            res = vlib.tlc(SPECDIR, 'InProcMem.tla', os.path.basename(cfgp), workers=2, timeout=120, copy_extra=[cfgp])
+            try:
+                viol = res['violated']
+                if expect is None and (viol or 'No error has been found' not in res['out']):
+                    raise vlib.Infra('InProcMem Reuse=%s: %s violated / not finished - the memory model is wrong\n%s' % (reuse, viol, res['out'][-2500:]))
+                if expect is not None and expect not in viol:
+                    raise vlib.Infra('InProcMem Reuse=%s: %s holds - the model cannot tell re-use from a fresh array (vacuous)' % (reuse, expect))
+                if expect is None and reuse == '{}':
+                    if res.get('distinct', 0) < 1000:
+                        raise vlib.Infra('InProcMem: only %s states' % res.get('distinct'))
+                    out['states'] = res.get('distinct', 0)
+                    out['transitions'] = res.get('generated', 0)
+                out['runs'].append({'reuse': reuse, 'invariants': invs, 'violated': viol, 'states': res.get('distinct', 0)})
+            finally:
+                vlib.tlc_cleanup(res)
+        out['bounds'] = dims
+        return out
+    finally:
+        shutil.rmtree(sd, ignore_errors=True)
+
+
+def tlc_long(gen_path, cases, timeout, par=4):
+    """MC_InProcLong on the long cases, one TLC per case, `par` at a time; returns the outputs in case order"""
+    import threading
+    outs = [None] * len(cases)
+    errs = []
+    walls = []
+    sem = threading.Semaphore(par)
+
+    def work(k):
+        with sem:
+            sd = vlib.scratch('c09long')
+            try:
+                cp = os.path.join(sd, 'c09_long.ndjson')
+                open(cp, 'w').write(json.dumps(cases[k]) + '\n')
+                cfgp = os.path.join(sd, 'MC_InProcLong.cfg')
+                open(cfgp, 'w').write(EXPORT_CFG)
+                res = vlib.tlc(SPECDIR, 'MC_InProcLong.tla', 'MC_InProcLong.cfg', workers=1, timeout=timeout, copy_extra=[cfgp, gen_path, cp])
+                try:
+                    op = os.path.join(res['scratch'], 'c09_long_out.json')
+                    if not os.path.exists(op):
+                        raise vlib.Infra('TLC long export produced no output for %s:\n%s' % (cases[k]['id'], res['out'][-3000:]))
+                    o = json.load(open(op))
+                    if len(o) != 1 or o[0]['id'] != cases[k]['id']:
+                        raise vlib.Infra('TLC long export: unexpected output for %s' % cases[k]['id'])
+                    outs[k] = o[0]
+                    walls.append(res['wall'])
+                finally:
+                    vlib.tlc_cleanup(res)
+            except BaseException as e:  # noqa
+                errs.append(e)
+            finally:
+                shutil.rmtree(sd, ignore_errors=True)
+    ts = [threading.Thread(target=work, args=(k,)) for k in range(len(cases))]
+    for t in ts:
+        t.start()
+    for t in ts:
+        t.join()
+    if errs:
+        raise errs[0]
+    return outs, max(walls or [0])
 
 
 def export_sharded(gen_path, cases, shards, timeout):
@@ -491,6 +694,19 @@ def chain_casefile(cases, outs, conc, seed):
     return {'conc': conc, 'dur_s': DUR, 'windows': WINDOWS, 'seed': seed, 'cases': cs}
 
 
+def long_casefile_entries(lcases, louts):
+    cs = []
+    for c, o in zip(lcases, louts):
+        p = PIPELINES[c['pl'] - 1]
+        exp, pred = obs_json(o['exp']), obs_json(o['pred'])
+        agree = canon(pred) == canon(exp)
+        cs.append({'id': c['id'], 'pid': p['id'], 'q': p['q'], 'metric': is_metric(p), 'es': c['es'], 'cut': o['cut'], 'eof': c['eof'],
+                   'alts': c['alts'], 'lim': c['lim'], 'fwd': c['fwd'], 'exp': exp, 'preds': [pred], 'agree': agree,
+                   'causes': [] if agree else sorted(o['causes']), 'regress': {}, 'long': True, 'lclass': c['lclass'],
+                   'merged': not is_metric(p), 'sizes': o['sizes'], 'again': o['again']})
+    return cs
+
+
 # what each switch of the specification stands for (for the violation messages); all but marker_eval are RETIRED switches
 # (InProc!IP_Retired): the code was repaired, the text describes the regression a result matching the switch means
 QUIRK_TEXT = {
@@ -526,7 +742,10 @@ def chain_violations(cf, res):
     for m in res.get('mismatches') or []:
         c = byid[m['id']]
         kinds = '+'.join(m.get('diff_kinds') or [m.get('kind', '?')])
-        if c['causes'] and m.get('match_pred'):
+        if m.get('kind') == 'rewritten':
+            # InProcMem!DeliveredStable: the stage that sent the message wrote into it afterwards
+            groups.setdefault('C09/inproc/sent-message-rewritten/' + (m.get('rew_stage') or '?'), []).append((0, len(c['es']), m, c, kinds))
+        elif c['causes'] and m.get('match_pred'):
             for q in c['causes']:
                 groups.setdefault('C09/inproc/' + q, []).append((len(c['causes']), len(c['es']), m, c, kinds))
         elif m.get('match_retired'):
@@ -544,12 +763,32 @@ def chain_violations(cf, res):
             why = 'REGRESSION to a repaired deviation: ' + why
         ups = [{'labels': e['lb'], 'ts_s': e['ts'], 'line': cf['conc'].get(e['ln'], e['ln'])} for e in c['es']]
         allkinds = sorted(set(x[4] for x in lst))
+        if m.get('kind') == 'rewritten':
+            rw = m['rewritten'][0]
+            replay = vlib.save_replay('C09', re.sub(r'[^A-Za-z0-9_+-]+', '_', sig)[:150],
+                                      {'signature': sig, 'query': c['q'], 'limit': c['lim'], 'forward': c['fwd'], 'eof_marker': c['eof'],
+                                       'partition': m.get('rew_cut'), 'upstream_entries': ups, 'class': c.get('lclass'),
+                                       'sending_stage': m.get('rew_stage'), 'plan': m.get('plan'), 'rewritten_messages': m['rewritten'],
+                                       'read_on_receipt': m.get('obs'), 'read_again_after_the_chain_finished': m.get('reread_obs'),
+                                       'cases_with_this_signature': len(lst), 'conc': cf['conc'], 'seed': cf['seed']})
+            out.append({'property': 'C09', 'signature': sig,
+                        'msg': '%s (limit=%d, %d upstream entries in %d messages): message %d (%d entries) that the consumer had received from %s '
+                               'read differently when read again after the chain had finished - %d of its entries changed, the first (index %d) from '
+                               '%s to %s; %d messages changed [%d cases: %s] - a stage wrote into a message it had already sent '
+                               '(InProcMem.tla DeliveredStable): a consumer still busy with the message loses entries and sees others twice'
+                               % (c['q'], c['lim'], len(c['es']), len(m.get('rew_cut') or []), rw['msg'], rw['size'], m.get('rew_stage'),
+                                  rw['changed'], rw['first'], short_entry(rw['was']), short_entry(rw['now']), len(m['rewritten']), len(lst),
+                                  ', '.join(sorted(set(x[3].get('lclass') or 'short' for x in lst)))),
+                        'replay': replay})
+            continue
         replay = vlib.save_replay('C09', re.sub(r'[^A-Za-z0-9_+-]+', '_', sig)[:150],
                                   {'signature': sig, 'query': c['q'], 'limit': c['lim'], 'forward': c['fwd'], 'eof_marker': c['eof'],
                                    'partition': c['cut'], 'upstream_entries': ups, 'expected': c['exp'], 'predicted_as_coded': c['preds'][0],
                                    'observed': m.get('obs'), 'observed_other_partitions': m.get('part_obs'), 'other_partitions': m.get('part_cuts'),
                                    'plan': m.get('plan'), 'stderr': m.get('stderr'), 'causes': c['causes'], 'cases_with_this_signature': len(lst),
-                                   'kinds_of_difference': allkinds, 'case': c, 'conc': cf['conc'], 'dur_s': cf['dur_s'], 'windows': cf['windows'],
+                                   'kinds_of_difference': allkinds,
+                                   'case': c if not c.get('long') else {k: v for k, v in c.items() if k not in ('es', 'exp', 'preds')},
+                                   'conc': cf['conc'], 'dur_s': cf['dur_s'], 'windows': cf['windows'],
                                    'seed': cf['seed']})
         obs = m.get('obs') or {}
         out.append({'property': 'C09', 'signature': sig,
@@ -561,6 +800,11 @@ def chain_violations(cf, res):
     return out
 
 
+def short_entry(e):
+    return '{%s}@%s %r%s' % (','.join('%s=%s' % kv for kv in sorted((e.get('labels') or {}).items())), e.get('ts_ns'),
+                             (e.get('line') or '')[:40], (' err=' + e['err']) if e.get('err') else '')
+
+
 def short_obs(o):
     if not o:
         return '?'
@@ -570,10 +814,10 @@ def short_obs(o):
     for st in o.get('streams') or []:
         lb = st.get('lb', st.get('labels', {}))
         if 'vals' in st:
-            vals = ['%s@%s' % ('/'.join(str(x) for x in v[1:]), v[0]) for v in st['vals']]
+            vals = ['%s@%s' % ('/'.join(str(x) for x in v[1:]), v[0]) for v in st['vals'][:8]] + (['.. %d values' % len(st['vals'])] if len(st['vals']) > 8 else [])
         else:
             vs = st.get('lines') or st.get('values') or []
-            vals = ['%s@%s' % (vs[i], st['ts'][i]) for i in range(len(vs))]
+            vals = ['%s@%s' % (vs[i], st['ts'][i]) for i in range(min(len(vs), len(st['ts']), 8))] + (['.. %d values' % len(st['ts'])] if len(st['ts']) > 8 else [])
         ss.append('{%s}[%s]' % (','.join('%s=%s' % kv for kv in sorted(lb.items())), ' '.join(vals)))
     return 'ok ' + ' '.join(sorted(ss)) if ss else 'ok (empty)'
 
@@ -590,6 +834,7 @@ def run(tier):
         gen_path = os.path.join(sd, 'InProcGen.tla')
         open(gen_path, 'w').write(gen_text)
         cases = gen_cases(tier, seed)
+        lcases = gen_long_cases(tier, seed)
 
         box = {}
         errs = []
@@ -606,8 +851,20 @@ def run(tier):
 
         ncpu = os.cpu_count() or 4
         # the theorem on the specification, the export, and the build run side by side
+        def grain_thms():
+            # the small grains: longer scripts and more messages over a few pipelines (a per-entry stage with the selecting stage
+            # line_format in front of limit and optimizer; aggregations under the series bound)
+            a = tlc_thm(gen_path, 3, 3, '{0, 2}', 150 if quick else 840, 3 if quick else max(2, ncpu // 4),
+                        pls=GRAIN_PLS_Q if quick else GRAIN_PLS, flushes='{1, 2}' if quick else '{1, 2, 3}')
+            b = tlc_thm(gen_path, 2 if quick else 3, 2, '{0}', 150 if quick else 840, 2 if quick else max(2, ncpu // 4),
+                        pls=CAP_PLS, caps='{1, 2}')
+            return {'flush': a, 'cap': b}
+
         th = [guard('thm', tlc_thm, gen_path, 2 if quick else 3, 2, '{0, 1, 3}' if quick else '{0, 1, 2, 4}', 150 if quick else 840, max(2, ncpu // 2)),
+              guard('grain', grain_thms),
+              guard('mem', tlc_mem, tier),
               guard('exp', export_sharded, gen_path, cases, 3 if quick else 6, 80 if quick else 600),
+              guard('long', tlc_long, gen_path, lcases, 150 if quick else 600, 5),
               guard('bin', vlib.go_build, 'cmd/c09', 'c09')]
         for t in th:
             t.join()
@@ -615,11 +872,22 @@ def run(tier):
             raise errs[0]
         outs, exp_wall = box['exp']
         binp = box['bin']
-        bad = [o['id'] for o in outs if not o['thm']]
+        louts, long_wall = box['long']
+        bad = [o['id'] for o in outs + louts if not o['thm']]
         if bad:
             raise vlib.Infra('the design violates the theorem on exported cases %s: the specification is wrong' % bad[:5])
 
         cf = chain_casefile(cases, outs, conc, seed)
+        lcs = long_casefile_entries(lcases, louts)
+        cf['cases'] += lcs
+        # vacuity of the long scripts on the specification: some must be predicted to cross the flush with a series that goes on
+        # (a fingerprint comes in a second message), one must be refused by the series bound and its neighbour not
+        crossing = [c['id'] for c in lcs if not c['metric'] and c['again'] > 0]
+        refused = [c['id'] for c in lcs if c['lclass'] == 'series-bound' and c['exp']['k'] == 'error']
+        accepted = [c['id'] for c in lcs if c['lclass'] == 'series-bound' and c['exp']['k'] == 'ok' and len(c['exp']['streams']) == CAP]
+        if len(crossing) < 4 or not refused or not accepted:
+            raise vlib.Infra('vacuous long scripts: crossing the flush %s, refused by the series bound %s, accepted at the bound %s'
+                             % (crossing, refused, accepted))
         cfp = os.path.join(sd, 'chain_cases.json')
         json.dump(cf, open(cfp, 'w'))
         resp = os.path.join(sd, 'chain_res.json')
@@ -660,14 +928,26 @@ def run(tier):
         chain, cross = box['chain'], box['cross']
         if chain.get('infra_errors'):
             raise vlib.Infra('c09 chain: ' + '; '.join(chain['infra_errors'][:5]))
-        if chain['cases'] != len(cases) or len(chain['pipelines']) != len(PIPELINES):
-            raise vlib.Infra('c09 chain ran %d of %d cases over %d of %d pipelines' % (chain['cases'], len(cases), len(chain['pipelines']), len(PIPELINES)))
+        if chain['cases'] != len(cf['cases']) or len(chain['pipelines']) != len(PIPELINES):
+            raise vlib.Infra('c09 chain ran %d of %d cases over %d of %d pipelines' % (chain['cases'], len(cf['cases']), len(chain['pipelines']), len(PIPELINES)))
+        # the long scripts on the real chain: did they cross its grain where the specification says they do?
+        lres = {r['id']: r for r in chain.get('long_results') or []}
+        if set(lres) != set(c['id'] for c in lcs):
+            raise vlib.Infra('c09 chain: results for long cases %s, expected %s' % (sorted(lres), [c['id'] for c in lcs]))
+        grain_same = [c['id'] for c in lcs if sorted(lres[c['id']].get('out_sizes') or []) == sorted(c['sizes'])
+                      and lres[c['id']].get('out_again') == c['again']]
+        crossed = [c['id'] for c in lcs if c['id'] in crossing and lres[c['id']].get('out_again', 0) > 0]
+        if len(crossed) < 2:
+            raise vlib.Infra('no long script made the real chain flush early (%s of %s): InProc!IP_AsBuilt no longer describes the chain'
+                             % (crossed, crossing))
 
         violations = chain_violations(cf, chain) + cross_violations(cross)
         thm = box['thm']
-        sample = cf['cases'][len(cf['cases']) // 2]
+        grain, mem = box['grain'], box['mem']
+        sample = cf['cases'][len(cases) // 2]
         coverage = {
-            'states': thm['states'], 'transitions': thm['generated'],
+            'states': thm['states'] + grain['flush']['states'] + grain['cap']['states'] + mem['states'],
+            'transitions': thm['generated'] + grain['flush']['generated'] + grain['cap']['generated'] + mem.get('transitions', 0),
             'traces_validated_against_impl': chain['cases'] + cross.get('queries', 0),
             'samples': [{'query': sample['q'], 'limit': sample['lim'], 'partition': sample['cut'], 'eof': sample['eof'],
                          'upstream': [{'labels': e['lb'], 'ts': e['ts'], 'line': conc.get(e['ln'], e['ln'])} for e in sample['es']],
@@ -675,7 +955,17 @@ def run(tier):
             'theorem': {'bounds': {'max_entries': 2 if quick else 3, 'max_messages': 2, 'pipelines': len(PIPELINES)},
                         'states': thm['states'], 'wall_s': thm['wall_s'],
                         'invariants': ['Thm_BatchingIndependent', 'Thm_LimitMeaning', 'Thm_SeriesIdentity']},
+            'theorem_small_grains': {'flush': dict(grain['flush'], pipelines=GRAIN_PLS_Q if quick else GRAIN_PLS, max_entries=3, max_messages=3,
+                                                   flush_thresholds=[1, 2] if quick else [1, 2, 3]),
+                                     'series_bound': dict(grain['cap'], pipelines=CAP_PLS, max_entries=2 if quick else 3, bounds=[1, 2])},
+            'memory_model': mem,
             'export': {'cases': len(cases), 'wall_s': round(exp_wall, 1)},
+            'long_scripts': {'cases': len(lcs), 'tlc_wall_s': round(long_wall, 1), 'grain': {'flush': FLUSH, 'batch': BATCH, 'series_bound': CAP},
+                             'classes': sorted(set(c['lclass'] for c in lcs)),
+                             'entries': {c['id']: len(c['es']) for c in lcs},
+                             'predicted_to_cross_the_flush': crossing, 'crossed_on_the_real_chain': crossed,
+                             'output_messages_as_predicted': grain_same,
+                             'messages_held_and_read_again': chain.get('held_messages', 0)},
             'chain': {'cases': chain['cases'], 'chain_executions': chain['replays'], 'pipelines': len(chain['pipelines']),
                       'agree_with_definition': chain['ok'], 'candidates_from_spec': chain['candidates'],
                       'candidates_confirmed_on_code': chain['confirmed'], 'code_as_transcribed': chain['pred_agree'],
@@ -693,7 +983,10 @@ def run(tier):
                     'where LogQL leaves room the definition follows what both engines do: tumbling windows, an extracted '
                     'label overrides a stream label, label_format keeps its source, a label with the empty value is absent',
                     'regular expressions in the cases are anchored (anchoring of =~ is C07/C08 territory)',
-                    'ResponseOptimizerPlanner flush at 3000 held entries and the 2000-series cap of the aggregators are outside the bounds',
+                    'the grain of the chain (getter batch 100, optimizer flush 3000, 2000 series per aggregation) is InProc!IP_AsBuilt; the '
+                    'getter itself is replaced by the scripted upstream, which cuts the rows as IP_GetterCut says (and otherwise)',
+                    'ownership of a sent message is observed at the consumer (a message it holds must not change); inside the chain a '
+                    'stage writing into a message it has sent shows only through its effect on the result under the schedule that happens',
                     'cross-engine runs use chsql as the SQL engine'],
                 }
     finally:
